@@ -184,8 +184,22 @@ func genC08(c *Ctx) {
 		}
 		var frames [][]byte
 		var groupRids, otherRids []int
+		// sometimes one member of the group (not the first) is a Tflush of a tag nobody uses: it waits its
+		// turn like any other request under the shared tag
+		flushMember := -1
+		if G >= 2 && r.Intn(3) == 0 {
+			flushMember = 1 + r.Intn(G-1)
+			c.count("group-with-tflush")
+		}
+		flushRid := -1
 		for pos, sl := range order {
 			rid := base + pos
+			if sl.group && sl.idx == flushMember {
+				groupRids = append(groupRids, rid)
+				flushRid = rid
+				frames = append(frames, s.send(30, func(fc *g.Fcall) error { return g.PackTflush(fc, 9999) }))
+				continue
+			}
 			if sl.group {
 				groupRids = append(groupRids, rid)
 				fid := uint32(sl.idx + 1)
@@ -220,6 +234,9 @@ func genC08(c *Ctx) {
 		// release: the group strictly one after the other (only the oldest can be inside), the others at random moments
 		pendingOthers := append([]int(nil), otherRids...)
 		for gi, rid := range groupRids {
+			if rid == flushRid {
+				continue // answered by the framework when its turn comes
+			}
 			if gated {
 				if !s.waitEntered([]int{rid}, f0, 5*time.Second) {
 					c.oracleFail("C08/fifo/member-never-started", fmt.Sprintf("member %d of the tag group was never handed to the implementation", rid-base), line)
@@ -243,7 +260,7 @@ func genC08(c *Ctx) {
 			s.release(rid)
 			// one at a time: with the successor parked inside the implementation, the work for
 			// this member (its handler, or its late answer) is over — it does not wait for the successor
-			if gated && gi+1 < len(groupRids) {
+			if gated && gi+1 < len(groupRids) && groupRids[gi+1] != flushRid {
 				nx := groupRids[gi+1]
 				if s.waitEntered([]int{nx}, f0, 5*time.Second) {
 					dl := time.Now().Add(2 * time.Second)
@@ -286,6 +303,10 @@ func genC08(c *Ctx) {
 		}
 		var want []string
 		for _, rid := range groupRids {
+			if rid == flushRid {
+				want = append(want, "Rflush")
+				continue
+			}
 			want = append(want, fmt.Sprintf("Rstat:n%d", rid))
 		}
 		if strings.Join(names, ",") != strings.Join(want, ",") {
